@@ -48,6 +48,7 @@ type Conf struct {
 	RtspUser, RtspPass              string
 	RecFlv, RecTs                   bool
 	PushAddrs                       []string
+	HlsHttpsOnly                    bool // hls.enable=false, hls.enable_https=true (segments are still produced on disk; the https listener has no certificate here)
 	StaticPull                      string
 	Api                             bool
 	DummyAudio                      bool
@@ -147,7 +148,7 @@ func start1(c Conf, root string) (*Server, error) {
 		"default_http": map[string]interface{}{"http_listen_addr": s.HttpAddr()},
 		"httpflv":      map[string]interface{}{"enable": c.Flv, "url_pattern": "/live/", "gop_num": c.FlvGop, "single_gop_max_frame_num": c.FlvGopCap},
 		"httpts":       map[string]interface{}{"enable": c.Ts, "url_pattern": "/live/", "gop_num": c.TsGop, "single_gop_max_frame_num": c.TsGopCap},
-		"hls": map[string]interface{}{"enable": c.Hls, "url_pattern": "/hls/", "out_path": s.HlsDir, "fragment_duration_ms": c.HlsFragMs, "fragment_num": c.HlsFragNum,
+		"hls": map[string]interface{}{"enable": c.Hls && !c.HlsHttpsOnly, "enable_https": c.Hls && c.HlsHttpsOnly, "url_pattern": "/hls/", "out_path": s.HlsDir, "fragment_duration_ms": c.HlsFragMs, "fragment_num": c.HlsFragNum,
 			"delete_threshold": c.HlsDelThr, "cleanup_mode": c.HlsCleanup, "use_memory_as_disk_flag": c.HlsMem, "sub_session_timeout_ms": c.HlsSubTimeoutMs, "sub_session_hash_key": c.HlsHashKey},
 		"rtsp": map[string]interface{}{"enable": c.Rtsp, "addr": s.RtspAddr(), "out_wait_key_frame_flag": c.RtspWaitKey, "auth_enable": c.RtspAuthEnable, "auth_method": c.RtspAuthMethod,
 			"username": c.RtspUser, "password": c.RtspPass, "ws_rtsp_enable": c.WsRtsp, "ws_rtsp_addr": fmt.Sprintf("127.0.0.1:%d", s.Ports.WsRtsp)},
